@@ -38,6 +38,9 @@ pub const PADDINGS: &[(&str, &str, bool)] = &[
     ("2-byte-comment-line", "# é ñ ü\n", false),
     ("3-byte-comment-line", "# 中文 注释\n", false),
     ("4-byte-comment-line", "# 🐢🐢 turtle\n", false),
+    ("crlf-comment-line", "# dos line ending\r\n", false),
+    ("two-crlf-lines", "# one\r\n# deux é\r\n", false),
+    ("crlf-blank-lines", "\r\n\r\n\r\n", false),
     ("string-literal-same-line", "derive {s0 = 'é中🐢'} | ", true),
     ("backtick-ident-same-line", "derive {`çé 🐢` = 1} | ", true),
 ];
@@ -169,23 +172,118 @@ fn compile_files(b: &Built) -> Result<Result<String, ErrorMessages>, crate::iso:
     })
 }
 
-fn line_col(src: &str, off: usize) -> Option<(usize, usize)> {
-    // char-offset convention (ErrorMessage::span is documented as a character offset)
-    let chars: Vec<char> = src.chars().collect();
-    if off > chars.len() {
-        return None;
-    }
-    let mut line = 0;
-    let mut col = 0;
-    for ch in &chars[..off] {
-        if *ch == '\n' {
-            line += 1;
-            col = 0;
-        } else {
-            col += 1;
+/// unit of span offsets. The property asks for spans "on character boundaries", which only byte offsets can
+/// miss; a compiler that counts characters throughout would satisfy every clause as well. A result is
+/// accepted if one convention explains all of its errors.
+#[derive(Clone, Copy, PartialEq, Debug)]
+enum Conv {
+    Bytes,
+    Chars,
+}
+
+/// offset (in the convention's unit) → byte offset, None if outside the text or inside a character
+fn to_byte(src: &str, off: usize, conv: Conv) -> Result<usize, &'static str> {
+    match conv {
+        Conv::Bytes => {
+            if off > src.len() {
+                Err("span-outside-source")
+            } else if !src.is_char_boundary(off) {
+                Err("span-splits-a-character")
+            } else {
+                Ok(off)
+            }
+        }
+        Conv::Chars => {
+            let n = src.chars().count();
+            if off > n {
+                Err("span-outside-source")
+            } else {
+                Ok(src.char_indices().nth(off).map(|(i, _)| i).unwrap_or(src.len()))
+            }
         }
     }
-    Some((line, col))
+}
+
+/// (line, column in characters, column in bytes) of a byte offset
+fn line_col(src: &str, byte: usize) -> (usize, usize, usize) {
+    let before = &src[..byte];
+    let line = before.matches('\n').count();
+    let ls = before.rfind('\n').map(|i| i + 1).unwrap_or(0);
+    (line, src[ls..byte].chars().count(), byte - ls)
+}
+
+fn check_spans(b: &Built, errs: &prqlc::ErrorMessages, stage: &str, conv: Conv) -> Vec<(String, String)> {
+    let mut bad = vec![];
+    let src = &b.files.iter().find(|(p, _)| *p == b.err_file).unwrap().1;
+    // offending region: character offsets → bytes
+    let rb = |c: usize| src.char_indices().nth(c).map(|(i, _)| i).unwrap_or(src.len());
+    let (ra, rz) = (rb(b.region.0), rb(b.region.1));
+    let mut any_overlap = false;
+    let mut any_span = false;
+    for e in &errs.inner {
+        let Some(sp) = e.span else { continue };
+        // the file the span names: ids are 1-based positions in the list given to SourceTree::new
+        let named = if b.files.len() == 1 { if sp.source_id == 1 { Some(&b.files[0].0) } else { None } } else { b.files.get((sp.source_id as usize).wrapping_sub(1)).map(|f| &f.0) };
+        match named {
+            None => {
+                bad.push(("span-names-no-file-of-the-project".into(), format!("span {sp:?}: source id {} is not a file of this project ({})", sp.source_id, e.reason)));
+                continue;
+            }
+            Some(f) if *f != b.err_file => {
+                bad.push(("span-in-wrong-file".into(), format!("span {sp:?} names {f:?}, the error is in {:?}", b.err_file)));
+                continue;
+            }
+            _ => {}
+        }
+        any_span = true;
+        if sp.start > sp.end {
+            bad.push(("span-start-after-end".into(), format!("span {sp:?}")));
+            continue;
+        }
+        let (bs, be) = match (to_byte(src, sp.start, conv), to_byte(src, sp.end, conv)) {
+            (Ok(a), Ok(z)) => (a, z),
+            (Err(k), _) | (_, Err(k)) => {
+                bad.push((k.into(), format!("span {sp:?} read as {conv:?}: the file has {} bytes / {} characters", src.len(), src.chars().count())));
+                continue;
+            }
+        };
+        // location must be the position of that span (columns counted in characters, or in the span's own unit)
+        let (s, en) = (line_col(src, bs), line_col(src, be));
+        match &e.location {
+            Some(loc) => {
+                let chars_ok = loc.start == (s.0, s.1) && loc.end == (en.0, en.1);
+                let bytes_ok = conv == Conv::Bytes && loc.start == (s.0, s.2) && loc.end == (en.0, en.2);
+                if !chars_ok && !bytes_ok {
+                    bad.push(("location-is-not-position-of-span".into(), format!("location {:?}-{:?}, span {sp:?} ({conv:?}) is at {:?}-{:?}", loc.start, loc.end, (s.0, s.1), (en.0, en.1))));
+                }
+            }
+            None => bad.push(("span-without-location".into(), format!("span {sp:?} but no location"))),
+        }
+        // the rendered message quotes the line containing the span
+        if let Some(d) = &e.display {
+            let text = src.split('\n').nth(s.0).unwrap_or("").trim_end_matches('\r');
+            if !text.trim().is_empty() && !d.contains(text.trim_end()) {
+                bad.push(("display-does-not-quote-the-line".into(), format!("line {} {:?} not in display", s.0, text)));
+            }
+        } else {
+            bad.push(("span-without-display".into(), format!("span {sp:?} but no rendered message")));
+        }
+        if bs < rz.max(ra + 1) && be.max(bs + 1) > ra {
+            any_overlap = true;
+        }
+    }
+    if any_span && !any_overlap {
+        let spans: Vec<String> = errs.inner.iter().filter_map(|e| e.span.map(|s| format!("{s:?}"))).collect();
+        let show = |sp: &prqlc::Span| match (to_byte(src, sp.start, conv), to_byte(src, sp.end, conv)) {
+            (Ok(a), Ok(z)) if a <= z => src[a..z].to_string(),
+            _ => "?".into(),
+        };
+        bad.push((
+            format!("span-misses-offending-text:{stage}"),
+            format!("spans {spans:?} read as {conv:?} (text {:?}) do not touch the offending text {:?} at chars {}..{}", errs.inner.iter().filter_map(|e| e.span.as_ref().map(show)).collect::<Vec<_>>(), &src[ra..rz], b.region.0, b.region.1),
+        ));
+    }
+    bad
 }
 
 pub fn check(b: &Built, stage: &str) -> Vec<(String, String)> {
@@ -207,69 +305,18 @@ pub fn check(b: &Built, stage: &str) -> Vec<(String, String)> {
     if errs.inner.is_empty() {
         bad.push(("no-error-message".into(), "Err with an empty list".into()));
     }
-    let src = &b.files.iter().find(|(p, _)| *p == b.err_file).unwrap().1;
-    let nchars = src.chars().count();
-    let mut any_overlap = false;
-    let mut any_span = false;
     for e in &errs.inner {
         if e.reason.trim().is_empty() {
             bad.push(("empty-reason".into(), "error with empty reason".into()));
         }
-        let Some(sp) = e.span else { continue };
-        // the file the span names: ids are 1-based positions in the list given to SourceTree::new
-        let named = if b.files.len() == 1 { if sp.source_id == 1 { Some(&b.files[0].0) } else { None } } else { b.files.get((sp.source_id as usize).wrapping_sub(1)).map(|f| &f.0) };
-        match named {
-            None => {
-                bad.push(("span-names-no-file-of-the-project".into(), format!("span {sp:?}: source id {} is not a file of this project ({})", sp.source_id, e.reason)));
-                continue;
-            }
-            Some(f) if *f != b.err_file => {
-                bad.push(("span-in-wrong-file".into(), format!("span {sp:?} names {f:?}, the error is in {:?}", b.err_file)));
-                continue;
-            }
-            _ => {}
-        }
-        any_span = true;
-        if sp.start > sp.end {
-            bad.push(("span-start-after-end".into(), format!("span {sp:?}")));
-            continue;
-        }
-        if sp.end > nchars {
-            bad.push(("span-outside-source".into(), format!("span {sp:?} but the file has {nchars} characters")));
-            continue;
-        }
-        // location must be the position of that span
-        match (&e.location, line_col(src, sp.start), line_col(src, sp.end)) {
-            (Some(loc), Some(s), Some(en)) => {
-                if loc.start != s || loc.end != en {
-                    bad.push(("location-is-not-position-of-span".into(), format!("location {:?}-{:?}, span {sp:?} is at {s:?}-{en:?}", loc.start, loc.end)));
-                }
-            }
-            (None, _, _) => bad.push(("span-without-location".into(), format!("span {sp:?} but no location"))),
-            _ => {}
-        }
-        // the rendered message quotes the line containing the span
-        if let (Some(d), Some((line, _))) = (&e.display, line_col(src, sp.start)) {
-            let text = src.lines().nth(line).unwrap_or("");
-            if !text.trim().is_empty() && !d.contains(text.trim_end()) {
-                bad.push(("display-does-not-quote-the-line".into(), format!("line {line} {:?} not in display", text)));
-            }
-        } else if e.display.is_none() {
-            bad.push(("span-without-display".into(), format!("span {sp:?} but no rendered message")));
-        }
-        let (a, z) = b.region;
-        if sp.start < z.max(a + 1) && sp.end.max(sp.start + 1) > a {
-            any_overlap = true;
-        }
     }
-    if any_span && !any_overlap {
-        let spans: Vec<String> = errs.inner.iter().filter_map(|e| e.span.map(|s| format!("{s:?}"))).collect();
-        let chars: Vec<char> = src.chars().collect();
-        let show = |s: usize, e: usize| chars[s.min(chars.len())..e.min(chars.len())].iter().collect::<String>();
-        bad.push((
-            format!("span-misses-offending-text:{stage}"),
-            format!("spans {spans:?} (text {:?}) do not touch the offending text {:?} at chars {}..{}", errs.inner.iter().filter_map(|e| e.span).map(|s| show(s.start, s.end)).collect::<Vec<_>>(), show(b.region.0, b.region.1), b.region.0, b.region.1),
-        ));
+    // one convention must explain every span of this result
+    let as_bytes = check_spans(b, &errs, stage, Conv::Bytes);
+    if !as_bytes.is_empty() {
+        let as_chars = check_spans(b, &errs, stage, Conv::Chars);
+        if !as_chars.is_empty() {
+            bad.extend(if as_chars.len() < as_bytes.len() { as_chars } else { as_bytes });
+        }
     }
     bad
 }
@@ -327,6 +374,9 @@ pub fn run(tier: Tier) -> i32 {
     if tier == Tier::Thorough {
         seeds.extend(crate::seeds::book_examples());
     }
+    // the same programs with DOS line endings
+    let dos: Vec<(String, String)> = seeds.iter().filter(|(_, s)| s.contains('\n') && !s.contains('\r')).map(|(n, s)| (format!("{n}+crlf"), s.replace('\n', "\r\n"))).collect();
+    seeds.extend(dos);
     const TRANSFORMS: &[&str] = &["select", "derive", "filter", "sort", "take", "join", "group", "aggregate", "window", "append"];
     let mut edits: Vec<(String, Built, &'static str)> = vec![];
     for (name, src) in &seeds {
@@ -381,8 +431,8 @@ pub fn run(tier: Tier) -> i32 {
     run.states = (cases.len() + edits.len()) as u64;
     run.transitions = st.points;
     run.set("bounds", json!({"templates": TEMPLATES.iter().map(|t| t.0).collect::<Vec<_>>(), "paddings": PADDINGS.iter().map(|p| p.0).collect::<Vec<_>>(), "placements": ["single file", "2 files, error in root", "2 files, error in module", "3 files, error in module"]}));
-    run.set("rule", json!("complete product template × padding × placement; each erroneous project is compiled; every returned error is checked: non-empty reason; span ordered, inside the named file, location = line/column of the span, display quotes that line, and some span touches the known offending text (character-offset convention, as documented for ErrorMessage::span)"));
-    run.assume("character offsets are the convention (ErrorMessage::span is documented as 'Character offset'; ariadne indexes by character)");
+    run.set("rule", json!("complete product template × padding × placement; each erroneous project is compiled; every returned error is checked: non-empty reason; span ordered, inside the named file, location = line/column of the span, display quotes that line, and some span touches the known offending text (offsets read as bytes or as characters: one convention must explain all spans of a result; under bytes they must lie on character boundaries)"));
+    run.assume("the unit of span offsets is not fixed by the property: a result is accepted if reading every span as byte offsets, or every span as character offsets, satisfies all clauses");
     run.finish()
 }
 
